@@ -13,6 +13,15 @@ PROOF_NOTE = ("Trusted: Lean 4.33 kernel + axioms propext/Classical.choice/Quot.
               "tables/constants (Strophe/Gen). ")
 
 CLAIMED = {
+    "C18": dict(
+        engine="b64", design="5.18",
+        technique="Lean 4 theorems (decoder = strict RFC 4648 decoder on every string; round trip; tables = RFC alphabet) + differential correspondence + exhaustive small-alphabet enumeration",
+        text=("decode_exact: for EVERY byte string the model of base64_decode (two-phase C control flow, returns bytes written "
+              "and length reported) equals an independent strict RFC 4648 decoder; decode_encode round trip; encode = RFC "
+              "encoder; regenerated tables proved to be the RFC alphabet and its inverse (decide +kernel). Model tied to "
+              "crypto.c every run: all strings over a 7-symbol alphabet up to length 6 plus random/mutated encodings, with a "
+              "double-fill-pattern oracle for uninitialised output."),
+        note=PROOF_NOTE + "Allocation failures not modelled."),
     "C19": dict(
         engine="jid", design="5.19",
         technique="Lean 4 theorems over a hand-written model of jid.c + differential correspondence + model-free reference oracle",
